@@ -17,7 +17,7 @@ LEVEL = "exploration"
 RULE = (
     "programs assembled from 2-5 feature blocks out of: random values referenced only from a requirement / "
     "several requirements / a soft requirement / a record statement / a monitor / behaviour globals / behaviour "
-    "arguments / run-time distributions in behaviours / sub-scenario setup; mesh shapes and mesh-region sampling; "
+    "arguments / run-time distributions in behaviours / sub-scenario setup; requirements drawing random numbers; mesh shapes and mesh-region sampling; "
     "visibility specifiers and `can see` requirements with an occluder; mutate; relative specifiers; 2D mode with "
     "polygonal workspace. Each program x N process instances (hash seed, heap perturbation, fake-clock seed, "
     "k in {0,5,50} earlier scenes). A program is non-trivial when every instance produced at least one scene and "
@@ -30,8 +30,8 @@ ASSUMPTIONS = [
     "DummySimulator is an adequate stand-in for the simulator-independent part of a run",
 ]
 MIN_COUNTERS = {
-    "quick": {"instances_run": 120, "programs_all_instances_sampled": 12, "programs_with_simulation": 8, "instances_clock_used": 60},
-    "thorough": {"instances_run": 4000, "programs_all_instances_sampled": 100, "programs_with_simulation": 80, "instances_clock_used": 2000},
+    "quick": {"instances_run": 120, "programs_all_instances_sampled": 12, "programs_with_simulation": 8, "instances_clock_used": 60, "programs_compile_rng_stream_checked": 12, "programs_with_normalized_group_nontrivial": 8},
+    "thorough": {"instances_run": 4000, "programs_all_instances_sampled": 100, "programs_with_simulation": 80, "instances_clock_used": 2000, "programs_compile_rng_stream_checked": 100, "programs_with_normalized_group_nontrivial": 60},
 }
 
 PY = "/venv/bin/python"
@@ -61,6 +61,7 @@ def _rv(rng, lo=None):
 FEATURES = [
     "req_only", "req_multi", "req_soft", "record_only", "monitor_only", "beh_globals", "beh_args", "beh_runtime",
     "subscenario", "mesh_shape", "mesh_region", "visible", "cansee", "mutate", "relative", "params", "mode2d",
+    "req_random", "req_random",
 ]
 RISKY = ["req_only", "req_multi", "req_soft", "record_only", "monitor_only"]
 
@@ -184,6 +185,10 @@ def gen_program(rng, force=None):
         head.append(f"{b} = {rv()}")
         body.append(f"require[0.5] F.obs('rq{nreq}', {a}, {b}) and ego.position.x > -2")
         nreq += 1
+    if "req_random" in feats:
+        # a requirement that itself draws from the global generators: Scenic restores them after checking
+        body.append("require F.rnd() >= -1 and ego.position.x > -3.5")
+        body.append("require ego.position.y < 3.5")
     if "record_only" in feats:
         a, b = name("c"), name("c")
         head.append(f"{a} = {rv()}")
@@ -318,6 +323,23 @@ def judge_program(prog, seed, insts, outs):
         "any_sim": any(((o["dump"].get("B") or {}).get("sim") or {}).get("result") for o in outs),
         "normalized_nontrivial": any(o["meta"].get("normalized_segment", 0) >= 2 for o in outs),
     }
+    consumed = outs[0]["meta"].get("compile_consumed_rng")
+    info["compile_rng_checked"] = consumed is not None
+    if consumed and any(consumed):
+        which = " and ".join(n for n, c in zip(("random", "numpy.random"), consumed) if c)
+        key = None
+        if consumed == [False, True] and any(x in prog["source"] for x in ("ConeShape(", "CylinderShape(", "SpheroidShape(", "MeshShape(")):
+            # MeshShape.__init__ scales its mesh with Trimesh.apply_transform, which draws from numpy.random
+            # (flips_winding) -- the very thing regions.py avoids by using transform_points
+            key = "shapes.MeshShape-apply_transform-consumes-numpy-rng"
+        viols.append(
+            {
+                "key": key,
+                "what": f"compiling the program consumed numbers from the user-visible global generator(s) {which}: the first draw after "
+                f"seed+compile differs from the first draw of a freshly seeded generator; features={prog['features']}",
+                "witness": {"program": prog, "seed": seed, "instances": [insts[0], insts[0]]},
+            }
+        )
     for normalized in (False, True):
         idx = [j for j, i in enumerate(insts) if bool(i.get("normalize_deps")) == normalized]
         if len(idx) < 2:
@@ -340,8 +362,16 @@ def judge_program(prog, seed, insts, outs):
             key = None
             if not normalized and function_of_order and a != b and sorted(a) == sorted(b):
                 key = "dependencies.requirement-deps-set-order"
-            elif eqA and not normalized and a == b:
-                key = None
+            elif eqA and a == b and outs[r]["meta"].get("stale_binding_before_B") is not None:
+                # history dependence: is it explained by the scenario staying bound to the last simulated scene?
+                ub = [json.dumps((o.get("diag") or {}).get("B_unbound"), sort_keys=True) for o in (outs[r], outs[j])]
+                if (
+                    (outs[r]["meta"]["stale_binding_before_B"] or outs[j]["meta"]["stale_binding_before_B"])
+                    and ub[0] == ub[1]
+                    and ub[0] != "null"
+                    and insts[r]["k"] != insts[j]["k"]
+                ):
+                    key = "simulation.scenario-stays-bound-to-simulated-scene"
             what = (
                 f"instance {j} ({_desc(insts[j])}) differs from instance {r} ({_desc(insts[r])}) at {d}; "
                 f"Scenario.dependencies order {b} vs {a}; no-history phase equal={eqA}; features={prog['features']}"
@@ -411,6 +441,8 @@ def run_shard(spec):
             bump("programs_with_differing_dependency_order")
         if info["normalized_nontrivial"]:
             bump("programs_with_normalized_group_nontrivial")
+        if info.get("compile_rng_checked"):
+            bump("programs_compile_rng_stream_checked")
         its = {json.dumps([s.get("iterations") for s in o["dump"]["B"]["scenes"]]) for o in outs if o["dump"].get("B")}
         if any(any((s.get("iterations") or 0) > 1 for s in o["dump"]["B"]["scenes"]) for o in outs if o["dump"].get("B")):
             bump("programs_with_rejections")
